@@ -117,6 +117,9 @@ def _base(rng, kind, dim, T, X, mode):
             "n": n, "nStart": nStart, "selX": selX, "sampX": sampX, "bX": bX,
             "Q": 64, "tmin": -1, "tmax": 2, "xmin": [-2, 0][:dim if X else 0], "xmax": [1, 2][:dim if X else 0],
             "a0": rarlib.core.qstr(Fraction(rng.randint(-8, 8), 4)), "seed": rng.randrange(1 << 30)}
+    if case["seed"] % 2 == 0:
+        # a time interval away from 0 (candidates drawn as tmin + U(0, tmax) would leave it)
+        case["tmin"], case["tmax"] = 1, 3
     case["poly"] = rarlib.random_landscape(rng, rarlib.nvars_of(case)).to_json()
     return case
 
